@@ -33,6 +33,8 @@ def type_of(c):
         return {'k': 'enum', 'name': 'Color', 'values': ['red', 'green']}
     if g == 'occ':
         return {'k': 'prim', 'p': 'Integer', 'min': c['mino'], 'max': 'inf' if c['maxo'] == 99 else c['maxo']}
+    if g == 'nil' and c['ty'] == 'Obj':
+        return {'k': 'obj', 'name': 'NObj', 'fields': [['q', {'k': 'prim', 'p': 'Integer'}]], 'nillable': c['nillable'], 'min': c['mino']}
     if g == 'nil':
         t = {'k': 'prim', 'p': c['ty'], 'nillable': c['nillable'], 'min': c['mino']}
         if c.get('dflt'):
@@ -47,6 +49,11 @@ def type_of(c):
         if c['facet'] == 'lelt':
             return {'k': 'prim', 'p': 'DateTime', 'facets': {'le': B, 'lt': {'dt': [2020, 1, 1, 1, 0, 0, 0, 0]}}}
         return {'k': 'prim', 'p': 'DateTime', 'facets': {c['facet']: B}}
+    if g == 'inh':
+        return {'k': 'obj', 'name': 'Der', 'fields': [['n', {'k': 'prim', 'p': 'Integer', 'min': 1}]],
+                'base': {'k': 'obj', 'name': 'Bas', 'fields': [['m', {'k': 'prim', 'p': 'Integer', 'min': 1}]]}}
+    if g == 'time':
+        return {'k': 'prim', 'p': 'Time', 'facets': {('le' if c['facet'] == 'le25' else 'ge'): {'tm': [17, 0, 0, 250000]}}}
     if g == 'lex':
         return {'k': 'prim', 'p': c['ty'], 'facets': {}}
     if g == 'objarr':
@@ -80,11 +87,17 @@ def value_of(c, fam):
             return SKIP if fam == 'http' else E.NIL
         if c['how'] == 'absent':
             return None
-        return 5 if c['ty'] == 'Integer' else 'x'
+        return {'q': 5} if c['ty'] == 'Obj' else 5 if c['ty'] == 'Integer' else 'x'
     if g == 'date':
         from pytz import FixedOffset, utc
         inst = BOUND.replace(tzinfo=utc) + datetime.timedelta(minutes=c['delta'])
         return inst.astimezone(FixedOffset(c['off']))
+    if g == 'inh':
+        if c['omit'] == 'both' and fam == 'http':
+            return SKIP          # (the flat notation cannot spell an object without members: no key, no object)
+        return {k: v for k, v in (('m', 1), ('n', 2)) if c['omit'] not in (k, 'both')}
+    if g == 'time':
+        return E.Raw('17:00:00' + c['frac']) if text else '17:00:00' + c['frac']
     if g == 'lex':
         return E.Raw(TEXTS.get(c['text'], c['text'])) if text else SKIP
     if g == 'objarr':
@@ -110,7 +123,7 @@ def positions_of(c, fam):
     if g == 'objarr':
         return ['arg']
     pos = ['arg', 'field']
-    if g in ('num', 'big', 'str', 'enum', 'date', 'lex'):
+    if g in ('num', 'big', 'str', 'enum', 'date', 'lex', 'time'):
         pos.append('array')
         pos.append('rep')
         pos.append('repfield')
